@@ -52,6 +52,12 @@ class OutlineBase(plumpy.WorkChain):
             script = self.inputs['rets']
             val = script[idx] if idx < len(script) else None
         tr.append(name)
+        if kind == 's' and self.inputs.get('awaits'):
+            # the step also submits something and records it for the context (resolved one loop iteration later); this
+            # changes neither the order of the calls nor what the step's return value means
+            fut = self.loop.create_future()
+            self.loop.call_soon(fut.set_result, 'aw%d' % idx)
+            self.to_context(**{'aw%d' % idx: fut})
         if kind == 's' and self.inputs.get('emit'):
             self.out('o_%s_%d' % (name, idx), idx)
         return val
